@@ -125,7 +125,7 @@ GOENV = "export GOFLAGS=-mod=mod GOPROXY=off GOSUMDB=off GOTOOLCHAIN=local; "
 def import_seed(prop, k):
     """Confirm a sub-agent's mutant in its scratch worktree /tmp/seed/<prop> (demo passes on the clean tree,
     the patched tree builds, passes the unedited suite and fails the demo) and keep it as seeded/<prop>-m<k>/."""
-    wt = "/tmp/seed/%s" % prop
+    wt = os.path.join(os.environ.get("SEED_DIR", "/tmp/seed"), prop)
     src = os.path.join(wt, "_seed", "mutant%s" % k)
     demo = open(os.path.join(src, "demo_test.go")).read()
     first = demo.split("\n", 1)[0]
@@ -155,7 +155,7 @@ def import_seed(prop, k):
             os.remove(dst)
         sh("git checkout -- .", cwd=wt)
     ok = a.returncode == 0 and b.returncode == 0 and c.returncode != 0 and "FAIL" in c.stdout
-    name = "%s-m%s" % (prop, k)
+    name = "%s-%sm%s" % (prop, os.environ.get("SEED_TAG", ""), k)
     print(name, "confirmed" if ok else "NOT CONFIRMED", [(x["exit"]) for x in ran])
     if not ok:
         for x in ran:
